@@ -288,6 +288,12 @@ def locLoop (lines : List Str) (lineIndex : Nat) : Nat → Nat → Str → Outco
         locLoop lines lineIndex f n (loc ++ trimSpace nextLine)
       else .ok (loc, n)
 
+/-- `unclosedQuote` of the qualifier-continuation loop: a quotation mark was opened and the text so
+far does not end with a closing one -/
+def unclosedQuote (qualifier : Str) : Bool :=
+  let tq := trimSpace qualifier
+  List.elem '"' tq && !(tq.count '"' ≥ 2 && hasSuffix tq c!"\"")
+
 /-- the qualifier-continuation loop (lines 549-565): state = (qualifier, lineIndex, line) -/
 def subLoop (lines : List Str) (isTranslation : Bool) : Nat → Str → Nat → Str → Outcome (Str × Nat × Str)
   | 0, _, _, _ => .panic                              -- not reached
@@ -296,10 +302,8 @@ def subLoop (lines : List Str) (isTranslation : Bool) : Nat → Str → Nat → 
     -- trimmedQualifier := strings.TrimSpace(qualifier)
     -- unclosedQuote := Contains(trimmedQualifier, "\"") && !(Count(trimmedQualifier, "\"") >= 2 && HasSuffix(trimmedQualifier, "\""))
     -- if !sub && !(unclosedQuote && quickQualifierCheck(line)) { break }
-    let tq := trimSpace qualifier
-    let unclosedQuote := List.elem '"' tq && !(tq.count '"' ≥ 2 && hasSuffix tq c!"\"")
     (if sub then .ok true
-     else if unclosedQuote then quickQualifierCheck line else .ok false).bind fun b =>
+     else if unclosedQuote qualifier then quickQualifierCheck line else .ok false).bind fun b =>
       if !b then .ok (qualifier, lineIndex, line) else
       let qualifier := if !isTranslation then qualifier ++ c!" " ++ trimSpace line else qualifier ++ trimSpace line
       (lineAt lines (lineIndex + 1)).bind fun line' =>
